@@ -48,7 +48,9 @@ def cases(draw, tier="quick"):
     elif kind == "xwfail":
         case["xwfail"] = (draw(st.integers(1, 10 ** 6)), draw(st.integers(0, 30)), draw(st.integers(1, 60)), draw(st.integers(0, 20)))
     elif kind == "cz":
-        case["cz"] = [(draw(st.sampled_from([1, 2, 4, 5, 6])), draw(st.one_of(st.just(0), st.integers(1, 40000), st.integers(1, 40000))), draw(st.integers(1, 10 ** 6)), draw(st.sampled_from([16, 100, 4096, 5000, 65536])), draw(st.integers(0, 1)))
+        case["cz"] = [(draw(st.sampled_from([1, 2, 4, 5, 6])), draw(st.one_of(st.just(0), st.integers(1, 40000), st.integers(1, 40000))), draw(st.integers(1, 10 ** 6)), draw(st.sampled_from([16, 100, 4096, 5000, 65536])), draw(st.integers(0, 1)),
+                       # options read from an image before the copy is made (0: no; -1: a record the compressor has to refuse)
+                       draw(st.one_of(st.just(0), st.just(0), st.integers(1, 40000), st.just(-1))))
                       for _ in range(draw(st.integers(1, 4)))]
     else:
         case["xw"] = [(draw(st.integers(1, 10 ** 6)), draw(st.integers(0, 40)), draw(st.integers(0, 10)), draw(st.integers(0, 40)), draw(st.integers(0, 1)))
@@ -85,7 +87,7 @@ def check_case(case, opts):
     elif case["kind"] == "xwfail":
         lines.append("xwfail %d %d %d %d" % tuple(case["xwfail"]))
     elif case["kind"] == "cz":
-        lines += ["cz %d %d %d %d %d" % tuple(t) for t in case["cz"]]
+        lines += ["cz " + " ".join("%d" % x for x in t) for t in case["cz"]]
     else:
         lines += ["xw %d %d %d %d %d" % tuple(t) for t in case["xw"]]
     with Scratch("c19") as sc:
